@@ -65,3 +65,23 @@ def bounded(run, bound, max_runs):
             state["exhaustive"] = True
             return
         prefix = [d[0] for d in dec[:i]] + [dec[i][0] + 1]
+
+
+def one_preemption_everywhere(run, max_runs):
+    """Every schedule that follows the non-preemptive default except for ONE deviation, at every decision point and for every
+    alternative there (breadth-first over the position, unlike the depth-first `bounded`, so early points are reached too).
+    Free choices (the running task blocked or finished) count as decision points as well."""
+    state = {"exhaustive": False}
+    base_ch = BoundedChooser(prefix=[], bound=1)
+    res = run(base_ch)
+    yield res, state
+    n = 1
+    points = [(i, k) for i, (_pos, k) in enumerate(base_ch.decisions)]
+    for i, k in points:
+        for j in range(1, k):
+            if n >= max_runs:
+                return
+            ch = BoundedChooser(prefix=[0] * i + [j], bound=1)
+            yield run(ch), state
+            n += 1
+    state["exhaustive"] = True
